@@ -385,6 +385,68 @@ func c06HookAlphabet() []c06Op {
 	}
 }
 
+// round 8: echo mounted inside echo.  The handler's Response writes to another Response (or two):
+// programs over the operations the tower model has, most of them addressed to the handler's own
+// Response (L = 0), hooks and late status writes also to the outer ones (a middleware of the outer
+// application holds the outer context)
+func c06NestOp(r *rand.Rand, nest int, c1 int) c06Op {
+	var o c06Op
+	switch r.Intn(12) {
+	case 0, 1:
+		o = c06Op{K: "w", N: r.Intn(4)}
+	case 2:
+		o = c06Op{K: []string{"wh", "nc"}[r.Intn(2)], C: c1}
+	case 3:
+		o = c06Op{K: []string{"fl", "rcfl", "fefl"}[r.Intn(3)]}
+	case 4:
+		o = c06Op{K: "json", C: c1, N: r.Intn(3), Bad: r.Intn(3) == 0}
+	case 5:
+		o = c06Op{K: "blob", C: c1, CT: []int{1, 2, 3, 7}[r.Intn(4)], N: r.Intn(4)}
+	case 6, 7:
+		o = c06Op{K: "bf", H: 1 + r.Intn(4)}
+	case 8, 9:
+		o = c06Op{K: "af", H: 1 + r.Intn(4)}
+	case 10:
+		o = c06Op{K: "wstr", N: 1 + r.Intn(3)}
+	default:
+		o = c06Op{K: "wh", C: c06Codes[r.Intn(len(c06Codes))]}
+	}
+	return o
+}
+
+func c06NestProgram(r *rand.Rand, nest int) []c06Op {
+	c1 := c06Codes[r.Intn(len(c06Codes))]
+	var ops []c06Op
+	// what the outer application's middleware does before calling next: hooks on its Response
+	for k := r.Intn(3); k > 0; k-- {
+		ops = append(ops, c06Op{K: []string{"bf", "af"}[r.Intn(2)], H: 5 + r.Intn(3), L: 1 + r.Intn(nest)})
+	}
+	mixed := r.Intn(4) == 0 // operations on the outer Responses in between, too
+	for k := 1 + r.Intn(5); k > 0; k-- {
+		o := c06NestOp(r, nest, c1)
+		if mixed && r.Intn(3) == 0 {
+			o.L = 1 + r.Intn(nest)
+		}
+		ops = append(ops, o)
+	}
+	// ... and after next returned: a late helper call / status write / write on its own Response
+	if r.Intn(2) == 0 {
+		late := []c06Op{{K: "nc", C: 202}, {K: "wh", C: 500}, {K: "json", C: 500, N: 1}, {K: "w", N: 2}, {K: "fl"}, {K: "blob", C: 404, CT: 1, N: 1}}[r.Intn(6)]
+		late.L = 1 + r.Intn(nest)
+		ops = append(ops, late)
+	}
+	return ops
+}
+
+// alphabet for the exhaustive part: the handler's own Response (L 0) and the one it writes to (L 1)
+func c06NestAlphabet() []c06Op {
+	return []c06Op{
+		{K: "wh", C: 404}, {K: "w", N: 2}, {K: "fl"}, {K: "json", C: 201, N: 1}, {K: "json", C: 418, Bad: true},
+		{K: "blob", C: 202, CT: 1, N: 1}, {K: "bf", H: 1}, {K: "af", H: 2},
+		{K: "wh", C: 500, L: 1}, {K: "w", N: 1, L: 1}, {K: "fl", L: 1}, {K: "bf", H: 3, L: 1}, {K: "af", H: 4, L: 1},
+	}
+}
+
 func c06AdversarialR4(r *rand.Rand, c1, c2, h int) [][]c06Op {
 	// commit with zero body bytes, then a JSON helper (Committed, not Size, decides "already sent")
 	zero := [][]c06Op{{{K: "fl"}}, {{K: "wh", C: c1}}, {{K: "nc", C: c1}}, {{K: "redir", C: 302}}, {{K: "w", N: 0}},
@@ -522,6 +584,20 @@ func c06Gen(r *rand.Rand, tier string) []any {
 			c.Fresh = r.Intn(2) == 0 // Reset on one context / the pool, half and half
 		}
 		if r.Intn(4) == 0 {
+			// the handler's Echo is mounted inside one or two others; a third of these programs also
+			// touch the outer Responses
+			c.Nest = 1 + r.Intn(2)
+			c.Same = r.Intn(4) == 0
+			if r.Intn(3) == 0 {
+				c.Ops = append([]c06Op(nil), ops...)
+				for k := range c.Ops {
+					if r.Intn(3) == 0 {
+						c.Ops[k].L = 1 + r.Intn(c.Nest)
+					}
+				}
+			}
+		}
+		if r.Intn(4) == 0 {
 			t := c06Total(ops)
 			for _, p := range prev {
 				if k := c06Total(p); k > t {
@@ -613,6 +689,46 @@ func c06Gen(r *rand.Rand, tier string) []any {
 		}
 		out = append(out, c)
 	}
+	// a Response on top of another Response: exhaustive over a 13-op alphabet (8 operations on the
+	// handler's Response, 5 on the outer one) up to length 3 (thorough: 4), alternating ServeHTTP /
+	// NewContext mounting and the writer's optional interfaces ...
+	nalpha := c06NestAlphabet()
+	var nrec func(prefix []c06Op, l int)
+	nrec = func(prefix []c06Op, l int) {
+		if len(prefix) > 0 {
+			out = append(out, &c06Case{Cap: -1, Nest: 1, Ops: append([]c06Op(nil), prefix...), Fresh: len(out)%3 == 0, RF: len(out)%2 == 0, X: len(out)%4 < 2, HJ: len(out)%5 == 0})
+		}
+		if l == 0 {
+			return
+		}
+		for _, o := range nalpha {
+			nrec(append(prefix, o), l-1)
+		}
+	}
+	nrec(nil, maxLen)
+	// ... and random programs on towers of 2-4 Responses (a few with a capacity, a non-flusher, a
+	// refusing writer or earlier requests through the same pooled contexts: oracle only)
+	for i := 0; i < nAdv/2; i++ {
+		nest := []int{1, 1, 1, 2, 2, 3}[r.Intn(6)]
+		c := &c06Case{Cap: -1, Nest: nest, Ops: c06NestProgram(r, nest), Fresh: r.Intn(3) == 0, RF: r.Intn(2) == 0, X: r.Intn(2) == 0, HJ: r.Intn(2) == 0}
+		switch r.Intn(12) {
+		case 5, 6:
+			c.Same = true
+		case 0:
+			c.Cap = r.Intn(6)
+		case 1, 2:
+			c.Same = r.Intn(3) == 0
+			c.Prev = [][]c06Op{c06NestProgram(r, nest)}
+			if r.Intn(2) == 0 {
+				c.Prev = append(c.Prev, c06LeavesBehind(r))
+			}
+		case 3:
+			c.NF, c.X = true, false
+		case 4:
+			c.Strict = true
+		}
+		out = append(out, c)
+	}
 	randProg := func(max int) []c06Op {
 		var ops []c06Op
 		for j := 1 + r.Intn(max); j > 0; j-- {
@@ -675,7 +791,20 @@ func c06Gen(r *rand.Rand, tier string) []any {
 					ops[k].K = "unwrap" // a real connection would really be taken away
 				}
 			}
-			out = append(out, &c06Case{Cap: -1, Ops: ops, RoundTrip: true, Pretty: i%4 == 3})
+			rt := &c06Case{Cap: -1, Ops: ops, RoundTrip: true, Pretty: i%4 == 3}
+			if i%3 == 2 {
+				// echo mounted inside echo behind a real server; every fourth of these also has
+				// operations on the outer Responses
+				rt.Nest = 1 + i%2
+				if i%4 == 2 {
+					for k := range rt.Ops {
+						if r.Intn(3) == 0 {
+							rt.Ops[k].L = 1 + r.Intn(rt.Nest)
+						}
+					}
+				}
+			}
+			out = append(out, rt)
 		}
 	}
 	return out
@@ -741,6 +870,37 @@ func c06Shrink(ci any) []any {
 		d := cp()
 		d.RoundTrip = false
 		out = append(out, d)
+	}
+	if c.Same {
+		d := cp()
+		d.Same = false
+		out = append(out, d)
+	}
+	if c.Nest > 0 {
+		d := cp()
+		d.Nest = 0
+		out = append(out, d)
+		if c.Nest > 1 {
+			d := cp()
+			d.Nest = 1
+			out = append(out, d)
+		}
+		for j, p := range c.Prev {
+			for i, o := range p {
+				if o.L > 0 {
+					d := cp()
+					d.Prev[j][i].L = 0
+					out = append(out, d)
+				}
+			}
+		}
+		for i, o := range c.Ops {
+			if o.L > 0 {
+				d := cp()
+				d.Ops[i].L = 0
+				out = append(out, d)
+			}
+		}
 	}
 	if c.RF {
 		d := cp()
@@ -835,6 +995,23 @@ func c06Mutate(r *rand.Rand, ci any) []any {
 		g.Fresh = k%2 == 0
 		out = append(out, &g)
 	}
+	// the same program with its Echo mounted inside one or two others; with hooks of the outer
+	// application around it and a late status write / write on the outer Response
+	for k := 0; k < 12; k++ {
+		d := *c
+		d.Nest = 1 + k%2
+		d.Fresh = k%3 == 0
+		d.Same = k%4 == 3
+		d.RoundTrip = false
+		d.Ops = append([]c06Op(nil), c.Ops...)
+		if k >= 4 {
+			d.Ops = append([]c06Op{{K: []string{"bf", "af"}[k%2], H: 7, L: d.Nest}}, d.Ops...)
+		}
+		if k >= 8 {
+			d.Ops = append(d.Ops, c06Op{K: []string{"nc", "wh", "w", "json"}[k%4], C: 202, N: 1, L: 1 + (k/2)%d.Nest})
+		}
+		out = append(out, &d)
+	}
 	// and the adversarial request sequences themselves on this case's writer / context settings
 	for k := 0; k < 30; k++ {
 		d := *c
@@ -848,12 +1025,13 @@ func c06Mutate(r *rand.Rand, ci any) []any {
 func init() {
 	register(&Prop{
 		ID:             "C06",
-		Rule:           "handler programs over {WriteHeader, Write, Flush, Before, After, JSON / JSONPretty (serialisable or not), String/HTML/JSONBlob/Blob, NoContent, Redirect (valid and invalid codes), Stream, XMLBlob, JSONPBlob, JSONP (serialisable or not), XML / XMLPretty (encodable or not), Render (no renderer / failing renderer / working renderer), File / FileFS+StaticFileHandler / Attachment / Inline (file of n bytes, empty file, missing file, directory with and without index.html, file without Seek), Hijack, flush through http.ResponseController, flush through the FlushError convention (interface assertion, else Flush), Unwrap, io.Copy into the Response from a source without WriteTo (probes the Response for io.ReaderFrom) and from a strings.Reader (WriteTo → io.WriteString: probes it for io.StringWriter), io.WriteString into the Response}, run as ONE request or as the last of 2-4 requests served on the same recycled context (a third of the random cases; Echo.ServeHTTP + sync.Pool, or one context with Context.Reset); exhaustive over a 22-op alphabet up to length 3 (thorough: 4, plus every program of length 5 over a 10-op core alphabet), random programs of 1-12 ops (thorough: 1-24), adversarial single-request templates (flush first, commit with zero body bytes then JSON/JSONPretty, every helper after commit, unserialisable JSON then write, unserialisable JSONP/XML then WriteHeader, Attachment of a missing file then a commit, Render without a page, hooks around multi-write helpers, redirect code bounds, Hijack before/after commit), adversarial request sequences (an earlier request ends uncommitted with a preset status and/or hooks, or committed with a non-200 status / a large Size / hooks; the following request commits implicitly or registers no hooks and writes); status codes 200-599, 1xx (100-103, 199; echo.Response commits with them like with any other code) and, in 1 of 12 random status writes plus a template family, codes OUTSIDE 100..999 (0 = zero-valued status field, 1, 99, 1000, 1001, 65536, -1, -200) on an underlying writer that either accepts every code (Status must equal what it sent) or — half of the cases whose programs register no before-hook — refuses such a code the way net/http and httptest.ResponseRecorder do (first WriteHeader panics before anything is recorded: the operation is aborted, nothing is out, Committed must stay false, the refused status stays pending; the harness recovers per step); a quarter of the cases with a writer capacity at 0 / total-1 / total / random so writes come back short; underlying writers in all 16 combinations of {io.StringWriter + FlushError (half; like net/http's connection writer), http.Flusher (absent in a quarter of the cases: Flush commits, then panics, the harness recovers per step), io.ReaderFrom (half), http.Hijacker (half)}; a quarter with the request URL /?pretty; a fifth (sequences: half) through Echo.NewContext/Context.Reset (Status starts at 0) instead of ServeHTTP; thorough: 4000 single-request programs additionally behind a real httptest.Server (client status/body length vs Response.Status/Size; no 1xx codes and no Hijack there); hooks that register hooks (a before-hook registering an after-hook or another before-hook, an after-hook registering an after-hook or a before-hook, every time they run): exhaustive over a 10-op alphabet up to length 3 (thorough: 4) plus random programs, compared with the hooks model lean/EchoModel/C06Hooks.lean (single request, unlimited flushing writer) or judged by the oracle alone (capacity, non-flusher, earlier requests); Response fields and the recording writer are sampled after EVERY step of EVERY request; the first-status clause is judged against the status preset by THIS request's program text (tracked by the harness, not read from Response.Status); non-trivial = at least one operation after the headers went out AND (a hook registered, or flush as first operation of the last request, or a short write, or >=4 distinct tags), OR a committed last request after an earlier request that left hooks / a preset status / a non-trivial committed response on the context; distinct = distinct model op lines",
+		Rule:           "handler programs over {WriteHeader, Write, Flush, Before, After, JSON / JSONPretty (serialisable or not), String/HTML/JSONBlob/Blob, NoContent, Redirect (valid and invalid codes), Stream, XMLBlob, JSONPBlob, JSONP (serialisable or not), XML / XMLPretty (encodable or not), Render (no renderer / failing renderer / working renderer), File / FileFS+StaticFileHandler / Attachment / Inline (file of n bytes, empty file, missing file, directory with and without index.html, file without Seek), Hijack, flush through http.ResponseController, flush through the FlushError convention (interface assertion, else Flush), Unwrap, io.Copy into the Response from a source without WriteTo (probes the Response for io.ReaderFrom) and from a strings.Reader (WriteTo → io.WriteString: probes it for io.StringWriter), io.WriteString into the Response}, run as ONE request or as the last of 2-4 requests served on the same recycled context (a third of the random cases; Echo.ServeHTTP + sync.Pool, or one context with Context.Reset); exhaustive over a 22-op alphabet up to length 3 (thorough: 4, plus every program of length 5 over a 10-op core alphabet), random programs of 1-12 ops (thorough: 1-24), adversarial single-request templates (flush first, commit with zero body bytes then JSON/JSONPretty, every helper after commit, unserialisable JSON then write, unserialisable JSONP/XML then WriteHeader, Attachment of a missing file then a commit, Render without a page, hooks around multi-write helpers, redirect code bounds, Hijack before/after commit), adversarial request sequences (an earlier request ends uncommitted with a preset status and/or hooks, or committed with a non-200 status / a large Size / hooks; the following request commits implicitly or registers no hooks and writes); status codes 200-599, 1xx (100-103, 199; echo.Response commits with them like with any other code) and, in 1 of 12 random status writes plus a template family, codes OUTSIDE 100..999 (0 = zero-valued status field, 1, 99, 1000, 1001, 65536, -1, -200) on an underlying writer that either accepts every code (Status must equal what it sent) or — half of the cases whose programs register no before-hook — refuses such a code the way net/http and httptest.ResponseRecorder do (first WriteHeader panics before anything is recorded: the operation is aborted, nothing is out, Committed must stay false, the refused status stays pending; the harness recovers per step); a quarter of the cases with a writer capacity at 0 / total-1 / total / random so writes come back short; underlying writers in all 16 combinations of {io.StringWriter + FlushError (half; like net/http's connection writer), http.Flusher (absent in a quarter of the cases: Flush commits, then panics, the harness recovers per step), io.ReaderFrom (half), http.Hijacker (half)}; a quarter with the request URL /?pretty; a fifth (sequences: half) through Echo.NewContext/Context.Reset (Status starts at 0) instead of ServeHTTP; thorough: 4000 single-request programs additionally behind a real httptest.Server (client status/body length vs Response.Status/Size; no 1xx codes and no Hijack there); hooks that register hooks (a before-hook registering an after-hook or another before-hook, an after-hook registering an after-hook or a before-hook, every time they run): exhaustive over a 10-op alphabet up to length 3 (thorough: 4) plus random programs, compared with the hooks model lean/EchoModel/C06Hooks.lean (single request, unlimited flushing writer) or judged by the oracle alone (capacity, non-flusher, earlier requests); round 8 — a Response whose writer is another Response (echo mounted inside echo, 1-3 levels deep, through echo.WrapHandler / ServeHTTP(c.Response(), req) on pooled contexts or Echo.NewContext(req, c.Response()) + Context.Reset; the levels are different Echo instances or, in a quarter of these cases, routes of ONE Echo re-dispatching to itself): a quarter of the random, adversarial and sequence cases (a third of those with operations addressed to the outer Responses too), exhaustive over a 13-op alphabet (8 operations on the handler's Response, 5 on the one it writes to) up to length 3 (thorough: 4), random tower programs (outer hooks first, handler operations, a late status write / helper / write on an outer Response; some with capacity, non-flusher, refusing writer, earlier requests), 12 mounted variants of every case in the failing-input search, thorough: a third of the real-server programs; operations a level performs before the first operation of a deeper level run BEFORE the deeper Echo is mounted (its Response is reset on top of a possibly committed one); every clause is judged on the outermost Response and on every Response no status / body operation went around, the others must not claim more than happened (Committed => headers out, Size <= bytes written); single-request tower programs over {WriteHeader/NoContent, Write/WriteString, Flush (all three routes), Before, After, JSON, String/Blob} are compared with the tower model lean/EchoModel/C06Nest.lean (all Responses + writer + layered event trace), the rest is judged by the oracle alone; Response fields and the recording writer are sampled after EVERY step of EVERY request; the first-status clause is judged against the status preset by THIS request's program text (tracked by the harness, not read from Response.Status); non-trivial = at least one operation after the headers went out AND (a hook registered, or flush as first operation of the last request, or a short write, or >=4 distinct tags), OR a committed last request after an earlier request that left hooks / a preset status / a non-trivial committed response on the context; distinct = distinct model op lines",
 		New:            func() any { return &c06Case{} },
 		Gen:            c06Gen,
 		Run:            c06Run,
 		Shrink:         c06Shrink,
 		Mutate:         c06Mutate,
-		Correspondence: "C06.runSeqObs / C06.runSnaps / C06.step / C06.reset (lean/EchoModel/C06.lean) vs echo.Response + echo.Context helpers over recording http.ResponseWriters, one per request, on one recycled echo.Context",
+		Tolerable:      c06Tolerable,
+		Correspondence: "C06.runSeqObs / C06.runSnaps / C06.step / C06.reset (lean/EchoModel/C06.lean), C06H.run (C06Hooks.lean: hooks registering hooks), C06N.run (C06Nest.lean: towers of Responses) vs echo.Response + echo.Context helpers over recording http.ResponseWriters, one per request, on one recycled echo.Context",
 	})
 }
